@@ -12,34 +12,42 @@
 //                             -> len=<n> pkt=<hex> query=<name>/<t>/<c> dec: <as for m>
 //   h <id> <qr> <op> <aa> <tc> <rd> <ra> <rcode> <qd> <an> <ns> <ar>   rfc1035HeaderPack then rfc1035HeaderUnpack
 //                             -> pkt=<hex> id=.. qr=.. ... ar=..
-//   a UBSan report of a recoverable kind during a line prefixes its output with "ub:<kind>@<file>:<line> "
+//   a memcpy call of rfc1035.cc with a null pointer argument prefixes the line's output with "ub:memcpy-null@<function> "
 //   --dump-limits             the macro values the model depends on
 #include "squid.h"
-#include "dns/rfc1035.cc"
+#include "dns/rfc1035.h"
+#include "dns/rfc2671.h"
 #include "dns/rfc3596.h"
 #include "SquidConfig.h"
+#include "util.h"
 
+#include <cassert>
 #include <cstdio>
 #include <cstring>
 #include <iostream>
 #include <sstream>
 #include <string>
 #include <vector>
+#include <unistd.h>
+#include <memory.h>
+#include <netinet/in.h>
+#include <arpa/inet.h>
+#include <strings.h>
 
-// UBSan checks compiled as recoverable (only nonnull-attribute, see props/C37.py) call this hook and execution continues:
-// the line's output is then prefixed with "ub:<kind>@<file>:<line>" and the rest of the result is still printed.
+// Every memcpy call of rfc1035.cc goes through this observer: a null pointer argument is undefined behaviour even with a
+// zero length (C17 7.24.1p2); UBSan reports a source location only once per process, so the harness records it itself, per
+// line ("ub:memcpy-null@<function>" prefix of the line's output), and goes on (a zero-length copy is then skipped).
 static std::string ubReport;
-extern "C" void __ubsan_get_current_report_data(const char **OutIssueKind, const char **OutMessage, const char **OutFilename,
-        unsigned *OutLine, unsigned *OutCol, char **OutMemoryAddr);
-extern "C" void __ubsan_on_report(void) {
-    const char *kind = nullptr, *msg = nullptr, *file = nullptr;
-    unsigned l = 0, c = 0;
-    char *addr = nullptr;
-    __ubsan_get_current_report_data(&kind, &msg, &file, &l, &c, &addr);
-    if (!ubReport.empty()) return;   // first report of the line
-    const char *base = file ? strrchr(file, '/') : nullptr;
-    ubReport = std::string("ub:") + (kind ? kind : "?") + "@" + (base ? base + 1 : (file ? file : "?")) + ":" + std::to_string(l);
+static inline void *verifMemcpy(void *d, const void *s, size_t n, const char *fn) {
+    if (!d || !s) {
+        if (ubReport.empty()) ubReport = std::string("ub:memcpy-null@") + fn;
+        if (!n) return d;
+    }
+    return __builtin_memcpy(d, s, n);
 }
+#define memcpy(d, s, n) verifMemcpy((d), (s), (n), __func__)
+#include "dns/rfc1035.cc"
+#undef memcpy
 
 static bool unhex(const std::string &h, std::string &r) {
     r.clear();
